@@ -94,6 +94,138 @@ fn list_seeds(only: Option<&str>) {
 }
 
 // --------------------------------------------------------------------------------------------
+// seed cache: the parent builds every seed once and stores it next to inputs.ndjson; a child
+// (re)started in the middle of a batch loads it instead of rebuilding (deterministic and cheap)
+// --------------------------------------------------------------------------------------------
+
+fn seed_paths(inputs: &Path, fmt: &str, name: &str) -> (PathBuf, PathBuf) {
+    let d = inputs.parent().unwrap_or(Path::new("."));
+    (d.join(format!("seed-{fmt}-{name}.bin")), d.join(format!("seed-{fmt}-{name}.json")))
+}
+
+fn store_seed(inputs: &Path, s: &Seed) {
+    let (pb, pj) = seed_paths(inputs, s.format, &s.name);
+    std::fs::write(&pb, &s.bytes).unwrap_or_else(|e| tool_error(&format!("write {pb:?}: {e}")));
+    let fields: Vec<Value> = s
+        .fields
+        .iter()
+        .map(|f| json!([f.off, f.width, f.role, f.name, f.base, f.unit, f.enc.as_ref().map(|e| json!([e.start, e.len, e.key]))]))
+        .collect();
+    let seqs: Vec<Value> = s.seqs.iter().map(|q| json!([q.name, q.items, q.parent_size_fields])).collect();
+    let aux = match &s.aux {
+        seed::Aux::None => json!(null),
+        seed::Aux::Names(v) => json!({"names": v}),
+        seed::Aux::Base(b) => json!({"base": b}),
+    };
+    std::fs::write(&pj, serde_json::to_vec(&json!({"fields": fields, "seqs": seqs, "aux": aux})).unwrap())
+        .unwrap_or_else(|e| tool_error(&format!("write {pj:?}: {e}")));
+}
+
+pub fn load_seed(inputs: &Path, fmt: &str, name: &str) -> Seed {
+    let (pb, pj) = seed_paths(inputs, fmt, name);
+    let (Ok(bytes), Ok(meta)) = (std::fs::read(&pb), std::fs::read(&pj)) else {
+        return formats::build(fmt, name);
+    };
+    let m: Value = serde_json::from_slice(&meta).unwrap_or_else(|e| tool_error(&format!("seed meta: {e}")));
+    let fmt_static = formats::FORMATS.iter().find(|f| **f == fmt).copied().unwrap_or_else(|| tool_error("format"));
+    let mut s = Seed::new(fmt_static, name, bytes);
+    let us = |v: &Value| v.as_u64().unwrap_or(0) as usize;
+    for f in ga(&m, "fields") {
+        let role = seed::ROLES.iter().find(|r| Some(**r) == f[2].as_str()).copied().unwrap_or_else(|| tool_error("role"));
+        let enc = if f[6].is_null() { None } else { Some(seed::Enc { start: us(&f[6][0]), len: us(&f[6][1]), key: us(&f[6][2]) as u32 }) };
+        s.fields.push(Field { off: us(&f[0]), width: us(&f[1]) as u8, role, name: f[3].as_str().unwrap_or("").to_string(), base: us(&f[4]), unit: us(&f[5]), enc });
+    }
+    for q in ga(&m, "seqs") {
+        s.seqs.push(seed::ChunkSeq {
+            name: q[0].as_str().unwrap_or("").to_string(),
+            items: q[1].as_array().map(|a| a.iter().map(|it| (us(&it[0]), us(&it[1]))).collect()).unwrap_or_default(),
+            parent_size_fields: q[2].as_array().map(|a| a.iter().map(us).collect()).unwrap_or_default(),
+        });
+    }
+    s.aux = if let Some(n) = m["aux"].get("names") {
+        seed::Aux::Names(n.as_array().map(|a| a.iter().filter_map(|x| x.as_str().map(|y| y.to_string())).collect()).unwrap_or_default())
+    } else if let Some(b) = m["aux"].get("base") {
+        seed::Aux::Base(b.as_array().map(|a| a.iter().map(|x| x.as_u64().unwrap_or(0) as u8).collect()).unwrap_or_default())
+    } else {
+        seed::Aux::None
+    };
+    s
+}
+
+/// Resolve static code addresses to function names with one addr2line run (innermost inlined
+/// frame first). Returns address -> list of function names.
+fn resolve_addrs(exe: &Path, addrs: &[u64]) -> HashMap<u64, Vec<String>> {
+    let mut out: HashMap<u64, Vec<String>> = HashMap::new();
+    if addrs.is_empty() {
+        return out;
+    }
+    let mut cmd = Command::new("addr2line");
+    cmd.arg("-f").arg("-i").arg("-a").arg("-C").arg("-e").arg(exe);
+    for a in addrs {
+        // a return address: step back into the call instruction
+        cmd.arg(format!("0x{:x}", a.saturating_sub(1)));
+    }
+    let o = match cmd.output() {
+        Ok(o) if o.status.success() => o,
+        _ => return out,
+    };
+    let text = String::from_utf8_lossy(&o.stdout);
+    let mut cur: Option<u64> = None;
+    let mut expect_fn = false;
+    for line in text.lines() {
+        if let Some(h) = line.strip_prefix("0x") {
+            if let Ok(a) = u64::from_str_radix(h.trim(), 16) {
+                cur = Some(a + 1);
+                expect_fn = true;
+                continue;
+            }
+        }
+        if expect_fn {
+            if let Some(a) = cur {
+                out.entry(a).or_default().push(line.trim().to_string());
+            }
+            expect_fn = false;
+        } else {
+            // the file:line of the previous function name; the next line is a function again
+            expect_fn = true;
+        }
+    }
+    out
+}
+
+/// "ADDR:<hex> <hex> ..." -> the first library (wow_*) function on the stack, digits normalised
+fn site_name(key: &str, table: &HashMap<u64, Vec<String>>) -> String {
+    let list = key.trim_start_matches("ADDR:");
+    let mut first_other = String::new();
+    for h in list.split_whitespace() {
+        let Ok(a) = u64::from_str_radix(h, 16) else { continue };
+        for name in table.get(&a).map(|v| v.as_slice()).unwrap_or(&[]) {
+            let mut n = name.as_str();
+            // strip the legacy-mangling hash suffix
+            if let Some(p) = n.rfind("::h") {
+                if n.len() - p == 19 && n[p + 3..].chars().all(|c| c.is_ascii_hexdigit()) {
+                    n = &n[..p];
+                }
+            }
+            let t = n.trim_start_matches('<');
+            if t.starts_with("wow_") {
+                return normalise_digits(n);
+            }
+            if first_other.is_empty() && !(t.starts_with("std::") || t.starts_with("core::") || t.starts_with("alloc::") || t.starts_with("c05::")
+                || t.starts_with("__rust") || t.starts_with("__rdl") || t.starts_with("__rg") || t == "??" || t.starts_with("rust_") || t.contains("GlobalAlloc"))
+            {
+                first_other = normalise_digits(n);
+            }
+        }
+    }
+    if first_other.is_empty() {
+        "alloc-site-unresolved".to_string()
+    } else {
+        first_other
+    }
+}
+
+// --------------------------------------------------------------------------------------------
 // parent
 // --------------------------------------------------------------------------------------------
 
@@ -215,7 +347,10 @@ fn concretise(sym: &str, f: &Field, orig: u64, len: usize) -> Option<u64> {
             1u64 << 32
         }
         "nonzero" => 0x41,
-        s => tool_error(&format!("unknown boundary symbol {s}")),
+        s => match s.parse::<u64>() {
+            Ok(n) => n, // a literal (shift amounts, enum selectors)
+            Err(_) => tool_error(&format!("unknown boundary symbol {s}")),
+        },
     };
     let v = mask(v, w);
     if v == orig {
@@ -398,6 +533,7 @@ fn run_range(exe: &Path, inputs_file: &Path, lo: usize, hi: usize, timeout_ms: u
         let so = ch.stdout.take().unwrap();
         let mut begun: Option<(usize, String)> = None;
         let mut huge: Option<(usize, usize)> = None;
+        let mut site: Option<(usize, String)> = None;
         let mut timed_out: Option<usize> = None;
         let mut done_upto = cur; // first input not yet finished
         for line in BufReader::new(so).split(b'\n') {
@@ -420,11 +556,20 @@ fn run_range(exe: &Path, inputs_file: &Path, lo: usize, hi: usize, timeout_ms: u
                     let class = p.next().unwrap_or("").to_string();
                     let maxreq = p.next().and_then(|x| x.parse().ok()).unwrap_or(0);
                     let peak = p.next().and_then(|x| x.parse().ok()).unwrap_or(0);
-                    let key = p.next().unwrap_or("").to_string();
+                    let mut key = p.next().unwrap_or("").to_string();
+                    if maxreq > worker::alloc_limit(0) && (class == "ok" || class == "err") {
+                        // a refused request that the library survived: keep the requesting function
+                        if let Some((si, s)) = &site {
+                            if *si == i {
+                                key = s.clone();
+                            }
+                        }
+                    }
                     out.res.entry(i).or_default().push(EntryRes { entry, class, key, maxreq, peak });
                     begun = None;
                 }
                 "H" => huge = Some((i, rest.trim().parse().unwrap_or(0))),
+                "S" => site = Some((i, format!("ADDR:{}", rest.trim()))),
                 "T" => timed_out = Some(i),
                 "D" => done_upto = i + 1,
                 "X" => tool_error(&format!("worker thread died outside a guarded call at input {i}")),
@@ -432,6 +577,7 @@ fn run_range(exe: &Path, inputs_file: &Path, lo: usize, hi: usize, timeout_ms: u
             }
         }
         let st = ch.wait().unwrap_or_else(|e| tool_error(&format!("wait: {e}")));
+        let _ = std::fs::remove_file(scratch.join(format!("in-{}.bin", ch.id())));
         if let Some((i, entry)) = begun.take() {
             // the child died (or was stopped by its watchdog) inside entry point `entry` of input i
             let err_text = std::fs::read_to_string(&errp).unwrap_or_default();
@@ -445,7 +591,7 @@ fn run_range(exe: &Path, inputs_file: &Path, lo: usize, hi: usize, timeout_ms: u
             let (class, key) = if timed_out == Some(i) || sig == Some(libc::SIGALRM) {
                 ("timeout".to_string(), String::new())
             } else if huge.map(|h| h.0 == i).unwrap_or(false) {
-                ("hugealloc".to_string(), normalise_digits(&first))
+                ("hugealloc".to_string(), site.as_ref().filter(|s| s.0 == i).map(|s| s.1.clone()).unwrap_or_else(|| normalise_digits(&first)))
             } else if err_text.contains("overflowed its stack") || err_text.contains("stack overflow") {
                 ("stackoverflow".to_string(), String::new())
             } else if sig.is_some() {
@@ -513,10 +659,21 @@ fn parent() {
             len: s.bytes.len(),
         });
     }
+    // C05_ARCH=havoc,prefix,... restricts the plan (used by the saturation runs of selftest/C05/saturate.py)
+    let plan: Vec<Value> = match std::env::var("C05_ARCH") {
+        Ok(a) => {
+            let keep: HashSet<&str> = a.split(',').collect();
+            plan.into_iter().filter(|p| keep.contains(gs(p, "arch"))).collect()
+        }
+        Err(_) => plan,
+    };
     inputs.extend(expand(&seeds, &plan, th));
     // group by seed so that a child rebuilds a seed once
     inputs.sort_by_key(|i| i.seed_idx);
     let inputs_file = sc.file("inputs.ndjson");
+    for s in &seeds {
+        store_seed(&inputs_file, s);
+    }
     {
         let mut w = std::io::BufWriter::new(std::fs::File::create(&inputs_file).unwrap());
         for i in &inputs {
@@ -545,6 +702,30 @@ fn parent() {
         let o = run_range(&exe, &inputs_file, i, i + 1, timeout_ms * 2, &sc.path);
         if let Some(v) = o.res.get(&i) {
             results.insert(i, v.clone());
+        }
+    }
+
+    // 4b. allocation sites: resolve the distinct return addresses once
+    {
+        let mut addrs: HashSet<u64> = HashSet::new();
+        for v in results.values() {
+            for e in v {
+                if let Some(l) = e.key.strip_prefix("ADDR:") {
+                    addrs.extend(l.split_whitespace().filter_map(|h| u64::from_str_radix(h, 16).ok()));
+                }
+            }
+        }
+        let mut addrs: Vec<u64> = addrs.into_iter().collect();
+        addrs.sort();
+        let table = resolve_addrs(&exe, &addrs);
+        let mut memo: HashMap<String, String> = HashMap::new();
+        for v in results.values_mut() {
+            for e in v.iter_mut() {
+                if e.key.starts_with("ADDR:") {
+                    let k = memo.entry(e.key.clone()).or_insert_with(|| site_name(&e.key, &table)).clone();
+                    e.key = k;
+                }
+            }
         }
     }
 
